@@ -71,13 +71,14 @@ func VerifC10Service() {
 	ids := c10AllIDs()
 	for r := 0; r < nReads; r++ {
 		kind := 0
-		if r == 0 || vrt_Tier() > 0 {
+		if r == 0 {
 			kind = vrt_Choose("chunkKind", 4)
 			if kind == 3 {
 				kind = 4
 			}
 		} else {
-			// quick tier: the second read is a heartbeat or half a frame (the first read has the variety)
+			// the second read is a heartbeat or half a frame (the first read has the variety; giving the
+			// second read every kind as well does not finish within the thorough budget)
 			kind = 2 + vrt_Choose("secondKind", 2)
 		}
 		switch kind {
